@@ -124,7 +124,7 @@ def _verify_cases(chk, cells, keys, tmp):
         sealed = i in sealed_idx or (chk.tier != "quick" and c["expect"] == "accept")
         cases.append({
             "id": "v%05d" % i, "stage": "c20verify", "class": c["class"], "form": c["form"], "atype": c["atype"],
-            "n": c["n"], "out": c["out"], "marked": c["marked"], "expect": c["expect"], "seed": common.seed(),
+            "n": c["n"], "out": c["out"], "marked": c["marked"], "spell": c.get("spell", "lower"), "expect": c["expect"], "seed": common.seed(),
             "tmp": tmp, "sealed": sealed,
             "pub": kp["pub"] if sealed else "", "priv": kp["priv"] if sealed else "",
             "wrong": keys[1 - i % 2]["priv"] if sealed else "",
